@@ -297,7 +297,7 @@ def tlc_judge(chk, traces, label, shards=None):
             json.dump([t for _, t in part], f)
         try:
             w = max(1, par.NPROC // len(parts))
-            r = chk.tlc("GqlGrammarTrace", cfg, env={"TRACE_FILE": path}, tags=["ACC"], workers=w,
+            r = chk.tlc("GqlGrammarTrace", cfg, env={"TRACE_FILE": path}, tags=["ACC"], workers=w, heap="3g",
                         label="%s (%d traces)" % (label, len(part)), cache=True)
             if r.rc != 0:
                 raise tlc.TLCError("GqlGrammarTrace failed: %s\n%s" % (r.violated, r.tail))
